@@ -857,8 +857,8 @@ inline constexpr void Conversion<Unit::Speed, Unit::Speed::MicroinchPerHour>::To
 }
 
 template <typename NumericType>
-inline const std::map<Unit::Speed, std::function<void(NumericType* values, const std::size_t size)>>
-    MapOfConversionsFromStandard<Unit::Speed, NumericType>{
+inline constexpr auto MapOfConversionsFromStandard<Unit::Speed, NumericType>{
+  MakeConversionTable<Unit::Speed, NumericType>({
       {Unit::Speed::MetrePerSecond,
        Conversions<Unit::Speed,                                     Unit::Speed::MetrePerSecond>::FromStandard<NumericType>       },
       {Unit::Speed::MetrePerMinute,
@@ -936,12 +936,12 @@ inline const std::map<Unit::Speed, std::function<void(NumericType* values, const
        Conversions<Unit::Speed,                                     Unit::Speed::MicroinchPerMinute>::FromStandard<NumericType>   },
       {Unit::Speed::MicroinchPerHour,
        Conversions<Unit::Speed,                                     Unit::Speed::MicroinchPerHour>::FromStandard<NumericType>     },
+})
 };
 
 template <typename NumericType>
-inline const std::map<Unit::Speed,
-                      std::function<void(NumericType* const values, const std::size_t size)>>
-    MapOfConversionsToStandard<Unit::Speed, NumericType>{
+inline constexpr auto MapOfConversionsToStandard<Unit::Speed, NumericType>{
+  MakeConversionTable<Unit::Speed, NumericType>({
       {Unit::Speed::MetrePerSecond,
        Conversions<Unit::Speed,                                     Unit::Speed::MetrePerSecond>::ToStandard<NumericType>       },
       {Unit::Speed::MetrePerMinute,
@@ -1019,6 +1019,7 @@ inline const std::map<Unit::Speed,
        Conversions<Unit::Speed,                                     Unit::Speed::MicroinchPerMinute>::ToStandard<NumericType>   },
       {Unit::Speed::MicroinchPerHour,
        Conversions<Unit::Speed,                                     Unit::Speed::MicroinchPerHour>::ToStandard<NumericType>     },
+})
 };
 
 }  // namespace Internal
